@@ -300,3 +300,23 @@ Example c02_host_flag_relation_example :
   map (fun m : selmap => m 0) (fst (flag_filter 1 0 0 [1; 2; 1]%N sel)) = [[1]] /\
   snd (flag_filter 1 0 0 [1; 1; 1]%N sel) = false.
 Proof. vm_compute. repeat split; reflexivity. Qed.
+
+(* ---------------------------------------------------------------- per-file shortcut of time filters *)
+(* buildSearchObjects evaluates a TimeCondition  d + a*ftime + b*ltime >= 0  on the file's (min ftime, min ltime)
+   and (max ftime, max ltime) and, when both agree, drops the filter or skips the file -- but only for filters that
+   look at ONE of the two times.  For those the shortcut is sound for every stream between the bounds. *)
+Theorem c02_time_filter_file_shortcut_sound : forall a b d fmin fmax lmin lmax ft lt,
+  (fmin <= ft <= fmax)%Z -> (lmin <= lt <= lmax)%Z ->
+  match time_shortcut true a b d fmin fmax lmin lmax with
+  | ScDrop => time_filter a b d ft lt = true
+  | ScSkipFile => time_filter a b d ft lt = false
+  | ScKeep => True
+  end.
+Proof. exact time_shortcut_sound. Qed.
+
+(* without the one-time test (seeded change C02-r7d-n1) a duration bound such as ltime - ftime - 5 >= 0 is dropped
+   for a file whose synthetic corner points satisfy it although a stream does not *)
+Theorem c02_time_filter_file_shortcut_unguarded_refuted : exists a b d fmin fmax lmin lmax ft lt,
+  (fmin <= ft <= fmax)%Z /\ (lmin <= lt <= lmax)%Z /\
+  time_shortcut false a b d fmin fmax lmin lmax = ScDrop /\ time_filter a b d ft lt = false.
+Proof. exact time_shortcut_unguarded_refuted. Qed.
